@@ -8,6 +8,7 @@ import (
 	"bytes"
 	"fmt"
 	"math/big"
+	"strings"
 
 	"gitlab.com/yawning/secp256k1-voi/secec"
 
@@ -145,6 +146,18 @@ func main() {
 			}
 		}
 	}
+	// s/r on the GLV rounding / limb-carry boundaries of the variable-base multiply used by recovery
+	for gi, gv := range mc.GLVScalars(false) {
+		if !(strings.HasPrefix(gv.Label, "rounding") || strings.HasPrefix(gv.Label, "quotient")) {
+			continue
+		}
+		if !th && !(strings.Contains(gv.Label, "m=ffffffffffffffff,") || strings.Contains(gv.Label, "m=0,") || gi%7 == 0) {
+			continue
+		}
+		rp := ref.BaseMul(big.NewInt(int64(5 + gi%3)))
+		r := ref.ModN(rp.X)
+		cases = append(cases, tc{digests[0], r, ref.ZnMul(gv.V, r), "s/r on a GLV rounding boundary"})
+	}
 	// reference-signed signatures: exactly the emitted id recovers the signer
 	for _, d := range []*big.Int{one, big.NewInt(2), nm1, ref.Lambda, ref.HalfN} {
 		for _, dg := range digests[:3] {
@@ -194,7 +207,7 @@ func main() {
 			R.Sample(c.cls, map[string]any{"digest": mc.Hex(c.dg), "r": mc.HexBig(c.r), "s": mc.HexBig(c.s), "ids": "0..255", "ids_that_recover_a_key": nOK})
 		}
 	})
-	R.Expect("recovers", "recovers via second candidate (x = r+n)", "fails: id > 3", "fails: id <= 3", "constructed sR = eG (Q = infinity)", "reference-signed")
+	R.Expect("s/r on a GLV rounding boundary", "recovers", "recovers via second candidate (x = r+n)", "fails: id > 3", "fails: id <= 3", "constructed sR = eG (Q = infinity)", "reference-signed")
 	R.Finish()
 }
 
